@@ -8,6 +8,8 @@ NAME = 'c07_payload'
 PAY = 'src/rpm/payload.rs'
 IORES = (re.compile(r'io::Result<([^{]+?)>\s*(?=/\*@SPEC@\*/|\{)'), r'Result<\1, Error> ', None, 'R4-io::Result')
 
+READ_PREFIX = (re.compile(r'\.read\(&mut ([A-Za-z_][A-Za-z0-9_]*)\[\.\.([A-Za-z_][A-Za-z0-9_]*)\]\)'), r'.read_limited(&mut \1, \2)', None, "R17'-read into a prefix slice")
+
 PARTS = [Prelude('head.rs'), Raw('global size_of usize == 8;   // A-64BIT: the checks assume a 64-bit target\n'),
          Prelude('serspec.rs')] + io_head() + [
     Prelude('read.rs'),
@@ -48,6 +50,7 @@ pub open spec fn padlen(len: int) -> int { (4 - len % 4) % 4 }
     Fn(PAY, 'finish', impl='impl<R: Read> Reader<R>',
        subs=[ret(),
              ('io::copy(&mut self.inner.by_ref().take(remaining), &mut io::sink())?;', 'self.inner.skip_n(remaining)?;', None, "R16'-io::copy(take(n), sink)"),
+             READ_PREFIX,
              ] + mut_self(),
        spec='''    requires self.bytes_read <= self.file_size,
     ensures
@@ -60,17 +63,19 @@ pub open spec fn padlen(len: int) -> int { (4 - len % 4) % 4 }
             &&& r0.len() >= k + p
             &&& r->Ok_0.remaining() == r0.subrange(k + p, r0.len() as int)
         },''',
-       after=[('self.inner.read_exact(&mut padding)?;', '''
-            proof {
-                let r0 = self0.inner.remaining();
-                let rest = (self0.file_size - self0.bytes_read) as int;
-                let k = if rest <= r0.len() { rest } else { r0.len() as int };
+       before=[('Ok(self.inner)', '''proof {
+            let r0 = self0.inner.remaining();
+            let rest = (self0.file_size - self0.bytes_read) as int;
+            let k = if rest <= r0.len() { rest } else { r0.len() as int };
+            if r0.len() >= k + padlen(self0.file_size as int) {
                 assert(this.inner.remaining() =~= r0.subrange(k + padlen(self0.file_size as int), r0.len() as int));
-            }''')]),
+            }
+        }
+        ''')]),
     Fn(PAY, 'read', impl='impl<R: Read> Read for Reader<R>',
        subs=[ret(), ('fn read(', 'pub fn read(', 1, 'R10-trait-impl-as-inherent-fn'),
              ('(buf.len() as u64).min(remaining) as usize', 'min_u64(buf.len() as u64, remaining) as usize', None, 'R12-Ord::min'),
-             ('self.inner.read(&mut buf[..limit])?', 'self.inner.read_limited(buf, limit)?', None, "R17'-read into a prefix slice")],
+             ('self.inner.read(&mut buf[..limit])?', 'self.inner.read_limited(buf, limit)?', None, "R17'-read into a prefix slice"), READ_PREFIX],
        spec='''    requires old(self).bytes_read <= old(self).file_size,
     ensures
         final(self).file_size == old(self).file_size,
